@@ -332,6 +332,7 @@ struct Case {
     std::vector<Phase> phases;
     std::vector<std::uint8_t> sched;
     std::uint64_t tail = 0;
+    std::string segments;        // optional coarse schedule in front of schedule/tail (interpreted by the harness, see c25_btree.cpp)
     std::vector<KeyV> queries;   // extra probes of the final oracle
     std::string text() const {
         std::ostringstream os;
@@ -354,6 +355,7 @@ struct Case {
                 }
             }
         }
+        if (!segments.empty()) os << "segments: " << segments << "\n";
         os << "schedule:";
         for (auto b : sched) os << " " << (int)b;
         os << "\ntail: " << tail << "\nqueries:";
@@ -406,6 +408,9 @@ struct Case {
             } else if (w == "schedule:") {
                 int x;
                 while (ls >> x) c.sched.push_back((std::uint8_t)x);
+            } else if (w == "segments:") {
+                std::string p;
+                while (ls >> p) c.segments += (c.segments.empty() ? "" : " ") + p;
             } else if (w == "tail:") {
                 ls >> c.tail;
             } else if (w == "queries:") {
@@ -415,6 +420,15 @@ struct Case {
         return c;
     }
 };
+
+// Optional observer of the concurrent phases (schedule sources that react to what the threads do, extra statistics).
+// It never influences the oracle.
+struct PhaseObserver {
+    virtual ~PhaseObserver() = default;
+    virtual void phaseBegin(vsched::Scheduler& /*sch*/, int /*nthreads*/) {}   // before the workers start; may set sch.onPoint
+    virtual void opDone(int /*tid*/, std::size_t /*opIndex*/) {}               // worker tid's opIndex-th insert returned
+};
+inline PhaseObserver* g_observer = nullptr;
 
 struct Result {
     bool ok = true, inconclusive = false, harnessError = false;
@@ -516,6 +530,7 @@ Result runConcurrent(const Case& c, vsched::ChoiceSource* src) {
         const bool wasEmpty = t.empty();
         vsched::Scheduler sch(n, src, 40000);
         sch.killOnBudget = true;
+        if (g_observer) g_observer->phaseBegin(sch, n);
         std::vector<std::function<void()>> bodies;
         for (int id = 0; id < n; id++) {
             bodies.push_back([&, id] {
@@ -527,6 +542,7 @@ Result runConcurrent(const Case& c, vsched::ChoiceSource* src) {
                     const bool r = c.hints ? t.insert(k, h) : t.insert(k);
                     spans[id][j].resp = sch.step;
                     rets[id].push_back(r ? 1 : 0);
+                    if (g_observer) g_observer->opDone(id, j);
                 }
             });
         }
